@@ -163,6 +163,37 @@ def patchFvHeader (buf : Bytes) (length : Nat) (guid : Option Guid) (count : Nat
   else if headerLen % 2 ≠ 0 then .error .err
   else .ok (splice b 50 (leN 2 ((0 - sum16 (b.take headerLen)).toNat)))
 
+/-- the second half of the FirmwareVolume case: out-of-space check, growth of a resizable volume,
+    re-erased tail, `FreeSpace`, FFSv3 switch, header patches; `fbuf` is the re-laid buffer -/
+def finishFv (i : FvInfo) (fbuf : Bytes) (st : St) : Except Err (FvInfo × Bytes × St) :=
+  let newLen := fbuf.length
+  if i.length < newLen ∧ ¬ i.resizable then .error .err else
+  -- resize (nested volumes only)
+  let rz : Except Err (Nat × List Block) :=
+    if i.length < newLen then
+      match i.blocks with
+      | [] => .error .panic
+      | b0 :: bs =>
+        if b0.size = 0 then .error .err
+        else
+          let l := alignGo newLen b0.size
+          .ok (l, { b0 with count := (l / b0.size) % 4294967296 } :: bs)
+    else .ok (i.length, i.blocks)
+  match rz with
+  | .error e => .error e
+  | .ok (length, blocks) =>
+    let fbuf := if length > newLen then fbuf ++ List.replicate (length - newLen) st.pol else fbuf
+    let free := (length + 18446744073709551616 - align8 newLen) % 18446744073709551616
+    let swap : Bool := st.ffs3 && i.fsGuid == guidFFS2
+    match blocks with
+    | [] => .error .panic        -- (Q) `f.Blocks[0].Count` with an empty block map
+    | b0 :: _ =>
+      match patchFvHeader fbuf length (if swap then some guidFFS3 else none) b0.count i.headerLen with
+      | .error e => .error e
+      | .ok out =>
+        .ok ({ i with length := length, blocks := blocks, freeSpace := free,
+                      fsGuid := if swap then guidFFS3 else i.fsGuid }, out, { st with ffs3 := false })
+
 /-- the FirmwareVolume case of `Assemble.Visit` once the files are assembled -/
 def relayoutFv (i : FvInfo) (buf : Bytes) (files : List File) (st : St) : Except Err (FvInfo × Bytes × St) :=
   if i.length < buf.length then .error .err else
@@ -170,34 +201,7 @@ def relayoutFv (i : FvInfo) (buf : Bytes) (files : List File) (st : St) : Except
   if i.dataOffset > buf.length then .error .panic else
   match placeFiles st.pol (files.map (fun f => (f.info.attrs, f.buf))) (buf.take i.dataOffset) i.dataOffset with
   | .error e => .error e
-  | .ok fbuf =>
-    let newLen := fbuf.length
-    if i.length < newLen ∧ ¬ i.resizable then .error .err else
-    -- resize (nested volumes only)
-    let rz : Except Err (Nat × List Block) :=
-      if i.length < newLen then
-        match i.blocks with
-        | [] => .error .panic
-        | b0 :: bs =>
-          if b0.size = 0 then .error .err
-          else
-            let l := alignGo newLen b0.size
-            .ok (l, { b0 with count := (l / b0.size) % 4294967296 } :: bs)
-      else .ok (i.length, i.blocks)
-    match rz with
-    | .error e => .error e
-    | .ok (length, blocks) =>
-      let fbuf := if length > newLen then fbuf ++ List.replicate (length - newLen) st.pol else fbuf
-      let free := (length + 18446744073709551616 - align8 newLen) % 18446744073709551616
-      let swap := st.ffs3 ∧ i.fsGuid = guidFFS2
-      match blocks with
-      | [] => .error .panic        -- (Q) `f.Blocks[0].Count` with an empty block map
-      | b0 :: _ =>
-        match patchFvHeader fbuf length (if swap then some guidFFS3 else none) b0.count i.headerLen with
-        | .error e => .error e
-        | .ok out =>
-          .ok ({ i with length := length, blocks := blocks, freeSpace := free,
-                        fsGuid := if swap then guidFFS3 else i.fsGuid }, out, { st with ffs3 := false })
+  | .ok fbuf => finishFv i fbuf st
 
 mutual
 
